@@ -24,6 +24,7 @@ import (
 	"math"
 	"os"
 	"path/filepath"
+	"regexp"
 	"sort"
 	"strings"
 
@@ -44,10 +45,19 @@ type gpField struct {
 }
 
 type gpObject struct {
-	name       string
+	name       string // the GraphQL type name, spelled as the schema spells it (any case, underscores, digits)
 	hand, root bool
+	goType     string // hand: the exported Go struct the type is bound to (the schema name need not be a Go name)
+	rootKind   string // root: query | mutation (the schema name of a root is free: `schema { query: query_root }`)
 	implements string
 	fields     []*gpField
+}
+
+func (o *gpObject) goName() string {
+	if o.goType != "" {
+		return o.goType
+	}
+	return o.name
 }
 
 type gpOp struct {
@@ -81,6 +91,17 @@ func (p *gpProject) SDL() string {
 	for _, s := range p.sdl {
 		b.WriteString(s + "\n")
 	}
+	var roots []string
+	renamed := false
+	for _, o := range p.objects {
+		if o.root {
+			roots = append(roots, o.rootKind+": "+o.name)
+			renamed = renamed || o.name != ucFirst(o.rootKind)
+		}
+	}
+	if renamed {
+		b.WriteString("schema { " + strings.Join(roots, " ") + " }\n")
+	}
 	for _, o := range p.objects {
 		fmt.Fprintf(&b, "type %s", o.name)
 		if o.implements != "" {
@@ -106,6 +127,9 @@ func (p *gpProject) SDL() string {
 	return b.String()
 }
 
+// goParam: gqlgen binds method parameters to arguments BY NAME (strings.EqualFold): the parameter is spelled as the argument
+func goParam(s string) string { return s }
+
 func lcFirst(s string) string {
 	if s == "" {
 		return s
@@ -130,7 +154,7 @@ func (p *gpProject) yml(pkg, layout string) string {
 		if !o.hand {
 			continue
 		}
-		fmt.Fprintf(&b, "  %s:\n    model: verifharness/genout/c14/%s.%s\n", o.name, pkg, o.name)
+		fmt.Fprintf(&b, "  %s:\n    model: verifharness/genout/c14/%s.%s\n", o.name, pkg, o.goName())
 		var fl []string
 		for _, f := range o.fields {
 			switch {
@@ -147,15 +171,20 @@ func (p *gpProject) yml(pkg, layout string) string {
 	return b.String()
 }
 
-func goType(t string) string {
+func (p *gpProject) goType(t string) string {
 	nonNull := strings.HasSuffix(t, "!")
 	t = strings.TrimSuffix(t, "!")
 	if strings.HasPrefix(t, "[") {
-		return "[]" + goType(strings.TrimSuffix(strings.TrimPrefix(t, "["), "]"))
+		return "[]" + p.goType(strings.TrimSuffix(strings.TrimPrefix(t, "["), "]"))
 	}
 	base := map[string]string{"Int": "int", "String": "string", "Boolean": "bool", "Float": "float64", "ID": "string"}[t]
 	if base == "" {
-		return "*" + t // another hand-written model
+		for _, o := range p.objects {
+			if o.name == t {
+				return "*" + o.goName() // another hand-written model
+			}
+		}
+		return "*" + t
 	}
 	if nonNull {
 		return base
@@ -202,11 +231,11 @@ func (p *gpProject) handGo(pkg string) string {
 			continue
 		}
 		seen := map[string]bool{}
-		fmt.Fprintf(&b, "type %s struct {\n", o.name)
+		fmt.Fprintf(&b, "type %s struct {\n", o.goName())
 		for _, f := range o.fields {
 			if f.kind == "var" && !seen[f.goName] {
 				seen[f.goName] = true
-				fmt.Fprintf(&b, "\t%s %s\n", f.goName, goType(f.typ))
+				fmt.Fprintf(&b, "\t%s %s\n", f.goName, p.goType(f.typ))
 			}
 		}
 		b.WriteString("}\n\n")
@@ -215,10 +244,10 @@ func (p *gpProject) handGo(pkg string) string {
 				seen[f.goName] = true
 				var ps []string
 				for _, a := range splitArgs(f.args) {
-					ps = append(ps, a[0]+" "+goType(a[1]))
+					ps = append(ps, goParam(a[0])+" "+p.goType(a[1]))
 				}
-				rt := goType(f.typ)
-				fmt.Fprintf(&b, "func (r *%s) %s(%s) %s { return %s }\n\n", o.name, f.goName, strings.Join(ps, ", "), rt, zeroOf(rt))
+				rt := p.goType(f.typ)
+				fmt.Fprintf(&b, "func (r *%s) %s(%s) %s { return %s }\n\n", o.goName(), f.goName, strings.Join(ps, ", "), rt, zeroOf(rt))
 			}
 		}
 	}
@@ -233,7 +262,7 @@ func (p *gpProject) objsTok() string {
 		for _, f := range o.fields {
 			fs = append(fs, f.name+">"+f.key()+">0")
 		}
-		if o.name == "Query" {
+		if o.rootKind == "query" {
 			// codegen adds the introspection entry points to the query root; both are reserved
 			fs = append(fs, "__schema>introspectschema>1", "__type>introspecttype>1")
 		}
@@ -351,6 +380,24 @@ func parseGenCorpus(path string) []*gpProject {
 			o = &gpObject{name: f[0], hand: w[0] == "hand", root: w[0] == "root"}
 			if len(f) == 3 && f[1] == "implements" {
 				o.implements = f[2]
+			}
+			if o.hand {
+				// `hand <name> [go <GoStruct>]`: a schema name that is not an exported Go identifier needs the Go name
+				if len(f) == 3 && f[1] == "go" {
+					o.goType = f[2]
+				} else if c := f[0][0]; c < 'A' || c > 'Z' {
+					bad("hand-written model of a type whose name is not an exported Go identifier needs `go <GoStruct>`")
+				}
+			}
+			if o.root {
+				// `root <name> [query|mutation]`
+				o.rootKind = strings.ToLower(f[0])
+				if len(f) == 2 {
+					o.rootKind = f[1]
+				}
+				if o.rootKind != "query" && o.rootKind != "mutation" {
+					bad("root needs its kind: query | mutation")
+				}
 			}
 			p.objects = append(p.objects, o)
 		case "gen", "var", "method", "res":
@@ -481,7 +528,7 @@ func randomGenProject(r *rng.R, name string) *gpProject {
 		}
 		p.objects = append(p.objects, o)
 	}
-	q := &gpObject{name: "Query", root: true}
+	q := &gpObject{name: "Query", root: true, rootKind: "query"}
 	for _, hn := range hands {
 		q.fields = append(q.fields, &gpField{kind: "res", name: lcFirst(hn), typ: hn + "!", via: "name"},
 			&gpField{kind: "res", name: lcFirst(hn) + "List", args: "(first: Int = 3)", typ: "[" + hn + "!]", via: "name"})
@@ -489,9 +536,193 @@ func randomGenProject(r *rng.R, name string) *gpProject {
 	q.fields = append(q.fields, &gpField{kind: "res", name: "node", args: "(id: ID!)", typ: "Node", via: "name"},
 		&gpField{kind: "res", name: "things", args: "(first: Int)", typ: "[Thing!]", via: "name"},
 		&gpField{kind: "res", name: "scalar", typ: "Int!", via: "name"})
-	m := &gpObject{name: "Mutation", root: true, fields: []*gpField{{kind: "res", name: "bump", args: "(by: Int = 1)", typ: hands[0], via: "name"}}}
+	m := &gpObject{name: "Mutation", root: true, rootKind: "mutation", fields: []*gpField{{kind: "res", name: "bump", args: "(by: Int = 1)", typ: hands[0], via: "name"}}}
 	p.objects = append(p.objects, q, m)
+	for _, o := range p.objects {
+		if o.hand {
+			o.goType = o.name // the Go struct keeps the canonical name, the schema name is restyled below
+		}
+	}
+	p.restyle(r)
 	return p
+}
+
+// ------------------------------------------------------------------ the NAMES dimension
+//
+// The walker hands `ObjectDefinition.Name` and `Field.Name` to Complexity() exactly as the schema spells them, while the
+// templates derive Go identifiers from the same names (ComplexityRoot.<ucFirst type>.<ToGo field>, resolver interfaces,
+// field_<type>_<field>_args). A project is first built with canonical names and then every type name (objects, roots,
+// interface, union) and every field name is respelled the way real schemas do: leading lower case / capital,
+// snake_case, ALL CAPS, digits, initialisms. Type names stay distinct after Go mangling (distinct bases; gqlgen does
+// not compile two types mangled to one Go name); field names bound by name keep matching their Go field up to case and
+// underscores (the binder's rule), others are free; spellings that collide after mangling inside one object are the
+// "case" groups (one shared ComplexityRoot entry).
+
+var identRe = regexp.MustCompile(`[A-Za-z_][A-Za-z0-9_]*`)
+
+func snake(s string) string {
+	var b strings.Builder
+	for i, c := range s {
+		if c >= 'A' && c <= 'Z' && i > 0 {
+			b.WriteByte('_')
+		}
+		b.WriteRune(c)
+	}
+	return strings.ToLower(b.String())
+}
+
+// styleType: style 0 keeps the name; 1.. are the spellings of the sweep
+func styleType(name string, style int) string {
+	switch style {
+	case 1:
+		return lcFirst(name)
+	case 2:
+		return strings.ToLower(name) + "_rec"
+	case 3:
+		return name + "_Set"
+	case 4:
+		return strings.ToUpper(name)
+	case 5:
+		return name + "2"
+	case 6:
+		return lcFirst(name) + "3D"
+	case 7:
+		return name + "URL"
+	case 8:
+		return "HTTP" + name
+	case 9:
+		return "i" + name // iOSDevice-like: lower-case first letter, capital second
+	}
+	return name
+}
+
+const nTypeStyles = 10
+
+var lowerTypeStyles = []int{1, 2, 6, 9}
+
+// styleFree: a field bound by configuration / directive, generated, or resolved: any spelling (the entry is ToGo(name))
+func styleFree(name string, style int) string {
+	switch style {
+	case 1:
+		return ucFirst(name)
+	case 2:
+		return snake(name)
+	case 3:
+		return strings.ToUpper(snake(name))
+	case 4:
+		return name + "2"
+	case 5:
+		return name + "Id"
+	case 6:
+		return name + "_url"
+	case 7:
+		return snake(name) + "_"
+	case 8:
+		return name + "_2x"
+	}
+	return name
+}
+
+const nFreeStyles = 9
+
+// styleBound: a field bound to its Go field BY NAME: only case and underscores may differ
+func styleBound(name string, style int) string {
+	switch style {
+	case 1:
+		return ucFirst(name)
+	case 2:
+		return strings.ToUpper(name)
+	case 3:
+		return name[:len(name)/2] + "_" + name[len(name)/2:]
+	case 4:
+		return name + "_"
+	case 5:
+		return snake(name)
+	}
+	return name
+}
+
+const nBoundStyles = 6
+
+func (p *gpProject) restyle(r *rng.R) {
+	// ---- type names
+	ren := map[string]string{}
+	pick := func(canon string, styles []int) {
+		ren[canon] = styleType(canon, styles[r.Below(len(styles))])
+	}
+	all := make([]int, nTypeStyles)
+	for i := range all {
+		all[i] = i
+	}
+	firstHand, firstGen := true, true
+	for _, o := range p.objects {
+		switch {
+		case o.root:
+			ren[o.name] = [][]string{{"Query", "query", "query_root", "RootQuery", "QUERY"}, {"Mutation", "mutation", "mutation_root", "Mutations2", "Mutation"}}[map[string]int{"query": 0, "mutation": 1}[o.rootKind]][r.Below(5)]
+		case o.hand && firstHand:
+			firstHand = false
+			pick(o.name, lowerTypeStyles) // every project has a hand-written model whose type starts lower-case
+		case !o.hand && firstGen:
+			firstGen = false
+			pick(o.name, lowerTypeStyles) // ... and a generated model
+		default:
+			pick(o.name, all)
+		}
+	}
+	pick("Node", all)
+	pick("Thing", all)
+	reType := func(s string) string {
+		return identRe.ReplaceAllStringFunc(s, func(id string) string {
+			if n, ok := ren[id]; ok {
+				return n
+			}
+			return id
+		})
+	}
+	// ---- field names: interface fields are respelled once for the interface and its implementors
+	shared := map[string]string{"score": styleFree("score", r.Below(nFreeStyles)), "id": []string{"id", "ID", "Id", "id", "_id"}[r.Below(4)]}
+	reShared := func(s string) string {
+		// only the field positions of the interface declaration: `{ id: ID! score(w: Int = 2): Int }`
+		for from, to := range shared {
+			s = regexp.MustCompile(`([{ ])`+from+`([(:])`).ReplaceAllString(s, "${1}"+to+"${2}")
+		}
+		return s
+	}
+	for i, d := range p.sdl {
+		if strings.HasPrefix(d, "interface ") {
+			d = reShared(d)
+		}
+		p.sdl[i] = reType(d)
+	}
+	for _, o := range p.objects {
+		o.name = reType(o.name)
+		o.implements = reType(o.implements)
+		used := map[string]bool{}
+		for _, f := range o.fields {
+			used[normName(f.name)] = true
+		}
+		for _, f := range o.fields {
+			f.typ, f.args = reType(f.typ), reType(f.args)
+			if n, ok := shared[f.name]; ok && o.implements != "" {
+				f.name = n
+				continue
+			}
+			var n string
+			switch {
+			case f.via == "case":
+				continue // the pair fooVal / foo_val IS a spelling collision already
+			case (f.kind == "var" || f.kind == "method") && f.via == "name":
+				n = styleBound(f.name, r.Below(nBoundStyles))
+			default:
+				n = styleFree(f.name, r.Below(nFreeStyles))
+			}
+			if k := normName(n); k != normName(f.name) && used[k] {
+				continue // would collide with another field of the object after mangling: keep the canonical spelling
+			}
+			used[normName(n)] = true
+			f.name = n
+		}
+	}
 }
 
 // ------------------------------------------------------------------ ComplexityRoot tables
@@ -728,7 +959,7 @@ func runGenProj(outDir, corpus, tier string, seed uint64) {
 		ops := append([]gpOp{}, p.ops...)
 		var queryFields []*gpField
 		for _, o := range p.objects {
-			if o.name == "Query" {
+			if o.rootKind == "query" {
 				queryFields = o.fields
 			}
 		}
